@@ -350,6 +350,64 @@ func runC12(p *an.Prog, r *an.Run, tier string) {
 		r.Undec("stats-window", "store.Stats.CountNode", token.NoPos, "anchor not found")
 	}
 
+	// ---- miss-not-leaked: a record that is not there is the persistent driver's own business (badger.ErrKeyNotFound): it
+	// is answered with the contract's sentinel or with the empty value, as the memory driver does — never handed to the
+	// caller as it is. No store method returns a call's error on a branch on which that error is known to equal
+	// badger.ErrKeyNotFound (the `==` of such a test turned into `!=` does exactly that, and swallows real faults)
+	{
+		var lb []string
+		nKNF := 0
+		for _, fn := range badgerPkgFuncs(p) {
+			if p.IsTestFunc(fn) {
+				continue
+			}
+			an.AllInstrs(fn, func(in ssa.Instruction) {
+				bo, ok := in.(*ssa.BinOp)
+				if !ok || (bo.Op != token.EQL && bo.Op != token.NEQ) {
+					return
+				}
+				var ev ssa.Value
+				for _, pair := range [][2]ssa.Value{{bo.X, bo.Y}, {bo.Y, bo.X}} {
+					if ld, ok := pair[1].(*ssa.UnOp); ok && ld.Op == token.MUL {
+						if g, ok := ld.X.(*ssa.Global); ok && g.Name() == "ErrKeyNotFound" {
+							ev = pair[0]
+						}
+					}
+				}
+				if ev == nil {
+					return
+				}
+				nKNF++
+				for _, ref := range *bo.Referrers() {
+					iff, ok := ref.(*ssa.If)
+					if !ok {
+						continue
+					}
+					i := 0
+					if bo.Op == token.NEQ {
+						i = 1
+					}
+					eqTarget := iff.Block().Succs[i]
+					if len(eqTarget.Preds) != 1 {
+						continue
+					}
+					an.AllInstrs(fn, func(x ssa.Instruction) {
+						ret, ok := x.(*ssa.Return)
+						if !ok || !eqTarget.Dominates(ret.Block()) {
+							return
+						}
+						rr := an.RetResults(ret)
+						if len(rr) > 0 && rr[len(rr)-1] == ev {
+							lb = append(lb, an.FuncName(fn)+" returns badger.ErrKeyNotFound itself at "+p.Pos(ret.Pos())+" (the branch on which the error equals it): a missing record surfaces as a driver error instead of the contract's answer")
+						}
+					})
+				}
+			})
+		}
+		r.Floor("key-not-found-tests", nKNF, 8)
+		r.Check(len(lb) == 0, "miss-not-leaked", "badger", token.NoPos, "badger.ErrKeyNotFound is never returned as it is", "%s", strings.Join(dedup(lb), "; "))
+	}
+
 	// ---- stats-counters: the aggregate counts are sums over all records: every write of an integer counter of Stats in
 	// the shared counting helpers is an increment of that counter's previous value (an assignment for the `+=` leaves
 	// the count at 1 however many records there are); LatestBlockNumber is a maximum and is excluded
